@@ -246,6 +246,26 @@ theorem c19_choice_degenerate (f : Host → Bool) (es : List Entry) (d : Draw) (
   · rintro ⟨h1, h3⟩
     exact ⟨h1, by omega, Or.inr h3⟩
 
+/-- The same interval law stated for the as-written function, for a host that is announced once:
+`filterAndChooseHost` returns `h` iff `h` is eligible and the draw falls into `h`'s interval. -/
+theorem c19_choice_interval_host (f : Host → Bool) (es : List Entry) (d : Draw) (hv : d.Valid es)
+    (pre post : List Entry) (h : Host) (w : Nat) (hit : d.it2 = pre ++ (h, w) :: post)
+    (huniq : ∀ e ∈ pre ++ post, e.1 ≠ h) (hpos : 0 < d.p * Spec.weightOf f es) :
+    filterAndChooseHost f d = some h ↔
+      (f h = true ∧ d.q * Spec.weightOf f pre < d.p * Spec.weightOf f es ∧
+        d.p * Spec.weightOf f es ≤ d.q * (Spec.weightOf f pre + w)) := by
+  rw [← c19_choice_interval f es d hv pre post h w hit hpos, c19_choice_position_agrees]
+  constructor
+  · intro hc
+    cases hidx : filterAndChooseIdx f d with
+    | none => simp [hidx] at hc
+    | some j =>
+      simp only [hidx, Option.bind_some] at hc
+      rw [hit] at hc
+      rw [getElem?_split_unique pre post h w huniq j hc]
+  · intro hidx
+    simp [hidx, hit]
+
 /-! ## Non-vacuity -/
 
 section Examples
